@@ -121,6 +121,7 @@ type Interp struct {
 	known        map[string]*sym.Term // active known-finding predicates (id -> term), per path
 	nondetSeq    map[string]int
 	errSeq       int
+	procCodes    map[*Cell]Value
 	locked       int
 	pathNotes    []string
 	lastPanic    string
@@ -766,6 +767,12 @@ func (in *Interp) callFunction(fn *ssa.Function, args []Value, env []Value, site
 			return nil
 		}
 	}
+	if fn.Pkg != nil && !in.InterpPkgs[fn.Pkg.Pkg.Path()] {
+		// a pure library function on concrete arguments: run the real one
+		if v, ok := in.callThrough(name, fn, args); ok {
+			return v
+		}
+	}
 	if fn.Blocks == nil || (fn.Pkg != nil && !in.InterpPkgs[fn.Pkg.Pkg.Path()]) {
 		if in.recordExtern {
 			// harness asked for calls that leave the interpreted packages to be recorded, not refused
@@ -1141,6 +1148,11 @@ func (in *Interp) get(fr *frame, v ssa.Value) Value {
 			c = in.newCell(x.Type().(*types.Pointer).Elem())
 			c.Name = x.Pkg.Pkg.Name() + "." + x.Name()
 			c.Old = true
+			// a sentinel error (io.EOF, bufio.ErrTooLong, os.ErrNotExist, ...) is a distinct
+			// non-nil value: the code under test compares against it by identity
+			if it, ok := c.T.Underlying().(*types.Interface); ok && types.Identical(c.T, types.Universe.Lookup("error").Type()) && it != nil && c.Kids == nil {
+				c.V = Iface{T: errType, V: &ErrObj{Site: "sentinel " + c.Name, ID: -1 - len(in.Globals)}}
+			}
 			in.Globals[x] = c
 		}
 		return Ptr{c}
@@ -1613,6 +1625,10 @@ func (in *Interp) eval(fr *frame, v ssa.Value) Value {
 		case string:
 			i := in.concreteIndex(idx, len(arr), x.Index.Type())
 			return in.B.Const(8, uint64(arr[i]))
+		case *SymStr:
+			if arr.Bytes != nil {
+				return arr.Bytes[in.concreteIndex(idx, len(arr.Bytes), x.Index.Type())]
+			}
 		}
 		in.unmodelled(fmt.Sprintf("Index on %T", a))
 	case *ssa.Lookup:
@@ -1646,6 +1662,10 @@ func (in *Interp) eval(fr *frame, v ssa.Value) Value {
 			return in.newMapIter(c)
 		case string:
 			return &StrIter{S: c}
+		case *SymStr:
+			if c.Bytes != nil {
+				return &StrIter{B: c.Bytes}
+			}
 		}
 		in.unmodelled("range over unsupported value")
 	case *ssa.Next:
@@ -1848,6 +1868,14 @@ func (in *Interp) next(fr *frame, x *ssa.Next) Value {
 		tt := x.Type().(*types.Tuple)
 		return Tuple{in.B.False(), in.zeroOrNil(tt.At(1).Type()), in.zeroOrNil(tt.At(2).Type())}
 	case *StrIter:
+		if it.B != nil {
+			// byte-vector strings are 7-bit ASCII: one rune per byte
+			if it.Pos >= len(it.B) {
+				return Tuple{in.B.False(), in.B.Const(in.WordBits, 0), in.B.Const(32, 0)}
+			}
+			it.Pos++
+			return Tuple{in.B.True(), in.B.Const(in.WordBits, uint64(it.Pos-1)), in.B.ZExt(32, it.B[it.Pos-1])}
+		}
 		if it.Pos >= len(it.S) {
 			return Tuple{in.B.False(), in.B.Const(in.WordBits, 0), in.B.Const(32, 0)}
 		}
@@ -1887,7 +1915,11 @@ func (in *Interp) lookup(fr *frame, x *ssa.Lookup) Value {
 		i := in.concreteIndex(idx, len(b), x.Index.Type())
 		return in.B.Const(8, uint64(b[i]))
 	case *SymStr:
-		in.unmodelled("byte index into a symbolic string")
+		if b.Bytes == nil {
+			in.unmodelled("byte index into a symbolic string")
+		}
+		idx := in.get(fr, x.Index).(*sym.Term)
+		return b.Bytes[in.concreteIndex(idx, len(b.Bytes), x.Index.Type())]
 	case Map:
 		mt := under(x.X.Type()).(*types.Map)
 		key := in.get(fr, x.Index)
@@ -2343,6 +2375,23 @@ func (in *Interp) convert(v Value, from, to types.Type) Value {
 			if x.Arr != nil {
 				if ss := in.taggedString(x); ss != nil {
 					return ss
+				}
+			}
+			if w == 8 && x.Len >= 0 {
+				// symbolic bytes: a byte-vector string (only meaningful while the bytes are 7-bit ASCII,
+				// which holds for everything derived from vBytesStr by case mapping and copying)
+				bs := make([]*sym.Term, x.Len)
+				symbolic := false
+				for i := 0; i < x.Len; i++ {
+					t, ok := in.load(x.Arr.Kids[x.Off+i]).(*sym.Term)
+					if !ok {
+						in.unmodelled("string(bytes) of a non-integer element")
+					}
+					bs[i] = t
+					symbolic = symbolic || !t.IsConst()
+				}
+				if symbolic {
+					return in.mkByteStr(bs)
 				}
 			}
 			var sb strings.Builder
